@@ -241,13 +241,19 @@ static PatternResult explore(std::string const& pattern, std::vector<time_t> con
         tf._strftime_part_1 = nodes[0].snap.p1;
         tf._strftime_part_2 = nodes[0].snap.p2;
         int64_t const base = static_cast<int64_t>(instants[i]) * 1000000000ll;
+        // (a rendering of another second first: whatever an earlier pair left in the formatter is gone, the reported
+        // three-step sequence is self-contained)
+        time_t const other = instants[i == 0 ? 1 : 0];
+        (void)tf.format_timestamp(std::chrono::nanoseconds{static_cast<int64_t>(other) * 1000000000ll});
+        tf._strftime_part_1 = nodes[0].snap.p1;
+        tf._strftime_part_2 = nodes[0].snap.p2;
         (void)tf.format_timestamp(std::chrono::nanoseconds{base + FRACS[f1]});
         std::string_view got = tf.format_timestamp(std::chrono::nanoseconds{base + FRACS[f2]});
-        res.transitions += 2;
+        res.transitions += 3;
         if (got != W(i, f2))
         {
           res.violated = true;
-          res.v_seq = std::to_string(instants[i]) + "(frac=" + std::to_string(FRACS[f1]) + ") " + std::to_string(instants[i]) + " frac=" + std::to_string(FRACS[f2]);
+          res.v_seq = std::to_string(other) + " " + std::to_string(instants[i]) + "(frac=" + std::to_string(FRACS[f1]) + ") " + std::to_string(instants[i]) + " frac=" + std::to_string(FRACS[f2]);
           res.v_got = std::string(got);
           res.v_want = W(i, f2);
           break;
